@@ -202,6 +202,10 @@ func (c *ValidatorCache) GetBySlot(ctx context.Context, slot uint64) (ActiveVali
 type ProposerDuties struct {
 	sync.RWMutex
 
+	// invalidations counts the reorg invalidations seen so far; an answer fetched before the latest
+	// one must not be cached after it.
+	invalidations uint64
+
 	requestedIdxs map[eth2p0.Epoch][]eth2p0.ValidatorIndex
 	duties        map[eth2p0.Epoch][]eth2v1.ProposerDuty
 	metadata      map[eth2p0.Epoch]map[string]any
@@ -209,6 +213,9 @@ type ProposerDuties struct {
 
 // ProposerDutiesForEpoch is a map of proposer duties for specific epoch.
 type ProposerDutiesForEpoch struct {
+	// generation is 1 + the number of invalidations that had happened when the duties were requested
+	// from the beacon node, 0 if unknown.
+	generation    uint64
 	requestedIdxs []eth2p0.ValidatorIndex
 	duties        []eth2v1.ProposerDuty
 	metadata      map[string]any
@@ -218,6 +225,10 @@ type ProposerDutiesForEpoch struct {
 type AttesterDuties struct {
 	sync.RWMutex
 
+	// invalidations counts the reorg invalidations seen so far; an answer fetched before the latest
+	// one must not be cached after it.
+	invalidations uint64
+
 	requestedIdxs map[eth2p0.Epoch][]eth2p0.ValidatorIndex
 	duties        map[eth2p0.Epoch][]eth2v1.AttesterDuty
 	metadata      map[eth2p0.Epoch]map[string]any
@@ -225,6 +236,9 @@ type AttesterDuties struct {
 
 // AttesterDutiesForEpoch is a map of attester duties for specific epoch.
 type AttesterDutiesForEpoch struct {
+	// generation is 1 + the number of invalidations that had happened when the duties were requested
+	// from the beacon node, 0 if unknown.
+	generation    uint64
 	requestedIdxs []eth2p0.ValidatorIndex
 	duties        []eth2v1.AttesterDuty
 	metadata      map[string]any
@@ -234,6 +248,10 @@ type AttesterDutiesForEpoch struct {
 type SyncDuties struct {
 	sync.RWMutex
 
+	// invalidations counts the reorg invalidations seen so far; an answer fetched before the latest
+	// one must not be cached after it.
+	invalidations uint64
+
 	requestedIdxs map[eth2p0.Epoch][]eth2p0.ValidatorIndex
 	duties        map[eth2p0.Epoch][]eth2v1.SyncCommitteeDuty
 	metadata      map[eth2p0.Epoch]map[string]any
@@ -241,6 +259,9 @@ type SyncDuties struct {
 
 // SyncDutiesForEpoch is a map of sync committee duties for specific epoch.
 type SyncDutiesForEpoch struct {
+	// generation is 1 + the number of invalidations that had happened when the duties were requested
+	// from the beacon node, 0 if unknown.
+	generation    uint64
 	requestedIdxs []eth2p0.ValidatorIndex
 	duties        []eth2v1.SyncCommitteeDuty
 	metadata      map[string]any
@@ -382,6 +403,8 @@ func (c *DutiesCache) ProposerDutiesCache(ctx context.Context, epoch eth2p0.Epoc
 		requestVidxs = slices.Clone(allActive)
 	}
 
+	generation := c.proposerGeneration()
+
 	dutiesForEpoch, ok := c.fetchProposerDuties(epoch)
 	dutiesResult := make([]*eth2v1.ProposerDuty, 0, len(vidxs))
 
@@ -442,7 +465,7 @@ func (c *DutiesCache) ProposerDutiesCache(ctx context.Context, epoch eth2p0.Epoc
 		dutiesDeref = append(dutiesDeref, d)
 	}
 
-	_, ok = c.storeOrAmendProposerDuties(epoch, ProposerDutiesForEpoch{duties: dutiesDeref, metadata: eth2Resp.Metadata, requestedIdxs: requestVidxs})
+	_, ok = c.storeOrAmendProposerDuties(epoch, ProposerDutiesForEpoch{generation: generation, duties: dutiesDeref, metadata: eth2Resp.Metadata, requestedIdxs: requestVidxs})
 	if !ok {
 		log.Debug(ctx, "Failed to cache proposer duties - another routine already cached duties for this epoch, skipping", z.U64("epoch", uint64(epoch)))
 	}
@@ -476,6 +499,8 @@ func (c *DutiesCache) AttesterDutiesCache(ctx context.Context, epoch eth2p0.Epoc
 	if len(requestVidxs) == 0 {
 		requestVidxs = slices.Clone(allActive)
 	}
+
+	generation := c.attesterGeneration()
 
 	dutiesForEpoch, ok := c.fetchAttesterDuties(epoch)
 	dutiesResult := make([]*eth2v1.AttesterDuty, 0, len(vidxs))
@@ -537,7 +562,7 @@ func (c *DutiesCache) AttesterDutiesCache(ctx context.Context, epoch eth2p0.Epoc
 		dutiesDeref = append(dutiesDeref, d)
 	}
 
-	_, ok = c.storeOrAmendAttesterDuties(epoch, AttesterDutiesForEpoch{duties: dutiesDeref, metadata: eth2Resp.Metadata, requestedIdxs: requestVidxs})
+	_, ok = c.storeOrAmendAttesterDuties(epoch, AttesterDutiesForEpoch{generation: generation, duties: dutiesDeref, metadata: eth2Resp.Metadata, requestedIdxs: requestVidxs})
 	if !ok {
 		log.Debug(ctx, "Failed to cache attester duties - another routine already cached duties for this epoch, skipping", z.U64("epoch", uint64(epoch)))
 	}
@@ -571,6 +596,8 @@ func (c *DutiesCache) SyncCommDutiesCache(ctx context.Context, epoch eth2p0.Epoc
 	if len(requestVidxs) == 0 {
 		requestVidxs = slices.Clone(allActive)
 	}
+
+	generation := c.syncGeneration()
 
 	dutiesForEpoch, ok := c.fetchSyncDuties(epoch)
 	dutiesResult := make([]*eth2v1.SyncCommitteeDuty, 0, len(vidxs))
@@ -636,7 +663,7 @@ func (c *DutiesCache) SyncCommDutiesCache(ctx context.Context, epoch eth2p0.Epoc
 		dutiesDeref = append(dutiesDeref, d)
 	}
 
-	_, ok = c.storeOrAmendSyncDuties(epoch, SyncDutiesForEpoch{duties: dutiesDeref, metadata: eth2Resp.Metadata, requestedIdxs: requestVidxs})
+	_, ok = c.storeOrAmendSyncDuties(epoch, SyncDutiesForEpoch{generation: generation, duties: dutiesDeref, metadata: eth2Resp.Metadata, requestedIdxs: requestVidxs})
 	if !ok {
 		log.Debug(ctx, "Failed to cache sync duties - another routine already cached duties for this epoch, skipping", z.U64("epoch", uint64(epoch)))
 	}
@@ -644,6 +671,14 @@ func (c *DutiesCache) SyncCommDutiesCache(ctx context.Context, epoch eth2p0.Epoc
 	dutiesResult = append(dutiesResult, eth2Resp.Data...)
 
 	return SyncDutyWithMeta{Duties: dutiesResult, Metadata: eth2Resp.Metadata}, nil
+}
+
+// proposerGeneration returns the generation duties requested from the beacon node now belong to.
+func (c *DutiesCache) proposerGeneration() uint64 {
+	c.proposerDuties.RLock()
+	defer c.proposerDuties.RUnlock()
+
+	return c.proposerDuties.invalidations + 1
 }
 
 // fetchProposerDuties returns the cached proposer duties and true if they are available.
@@ -669,6 +704,14 @@ func (c *DutiesCache) fetchProposerDuties(epoch eth2p0.Epoch) (ProposerDutiesFor
 	return ProposerDutiesForEpoch{duties: duties, metadata: metadata, requestedIdxs: requestedIdxs}, true
 }
 
+// attesterGeneration returns the generation duties requested from the beacon node now belong to.
+func (c *DutiesCache) attesterGeneration() uint64 {
+	c.attesterDuties.RLock()
+	defer c.attesterDuties.RUnlock()
+
+	return c.attesterDuties.invalidations + 1
+}
+
 // fetchAttesterDuties returns the cached attester duties and true if they are available.
 func (c *DutiesCache) fetchAttesterDuties(epoch eth2p0.Epoch) (AttesterDutiesForEpoch, bool) {
 	c.attesterDuties.RLock()
@@ -690,6 +733,14 @@ func (c *DutiesCache) fetchAttesterDuties(epoch eth2p0.Epoch) (AttesterDutiesFor
 	}
 
 	return AttesterDutiesForEpoch{duties: duties, metadata: metadata, requestedIdxs: requestedIdxs}, true
+}
+
+// syncGeneration returns the generation duties requested from the beacon node now belong to.
+func (c *DutiesCache) syncGeneration() uint64 {
+	c.syncDuties.RLock()
+	defer c.syncDuties.RUnlock()
+
+	return c.syncDuties.invalidations + 1
 }
 
 // fetchSyncDuties returns the cached sync duties and true if they are available.
@@ -721,6 +772,11 @@ func (c *DutiesCache) fetchSyncDuties(epoch eth2p0.Epoch) (SyncDutiesForEpoch, b
 func (c *DutiesCache) storeOrAmendProposerDuties(epoch eth2p0.Epoch, dutiesForEpoch ProposerDutiesForEpoch) ([]eth2v1.ProposerDuty, bool) {
 	c.proposerDuties.Lock()
 	defer c.proposerDuties.Unlock()
+
+	if dutiesForEpoch.generation != 0 && dutiesForEpoch.generation != c.proposerDuties.invalidations+1 {
+		// The cache was invalidated (reorg) while the beacon node request was in flight, the answer may predate the reorg.
+		return nil, false
+	}
 
 	alreadySavedDuties, ok := c.proposerDuties.duties[epoch]
 	if !ok {
@@ -770,6 +826,11 @@ func (c *DutiesCache) storeOrAmendAttesterDuties(epoch eth2p0.Epoch, dutiesForEp
 	c.attesterDuties.Lock()
 	defer c.attesterDuties.Unlock()
 
+	if dutiesForEpoch.generation != 0 && dutiesForEpoch.generation != c.attesterDuties.invalidations+1 {
+		// The cache was invalidated (reorg) while the beacon node request was in flight, the answer may predate the reorg.
+		return nil, false
+	}
+
 	alreadySavedDuties, ok := c.attesterDuties.duties[epoch]
 	if !ok {
 		c.attesterDuties.duties[epoch] = dutiesForEpoch.duties
@@ -818,6 +879,11 @@ func (c *DutiesCache) storeOrAmendAttesterDuties(epoch eth2p0.Epoch, dutiesForEp
 func (c *DutiesCache) storeOrAmendSyncDuties(epoch eth2p0.Epoch, dutiesForEpoch SyncDutiesForEpoch) ([]eth2v1.SyncCommitteeDuty, bool) {
 	c.syncDuties.Lock()
 	defer c.syncDuties.Unlock()
+
+	if dutiesForEpoch.generation != 0 && dutiesForEpoch.generation != c.syncDuties.invalidations+1 {
+		// The cache was invalidated (reorg) while the beacon node request was in flight, the answer may predate the reorg.
+		return nil, false
+	}
 
 	alreadySavedDuties, ok := c.syncDuties.duties[epoch]
 	if !ok {
@@ -967,6 +1033,8 @@ func (c *DutiesCache) trimAfterProposerDuties(epoch eth2p0.Epoch) bool {
 	c.proposerDuties.Lock()
 	defer c.proposerDuties.Unlock()
 
+	c.proposerDuties.invalidations++
+
 	ok := false
 
 	for k := range c.proposerDuties.duties {
@@ -1001,6 +1069,8 @@ func (c *DutiesCache) trimAfterAttesterDuties(epoch eth2p0.Epoch) bool {
 	c.attesterDuties.Lock()
 	defer c.attesterDuties.Unlock()
 
+	c.attesterDuties.invalidations++
+
 	ok := false
 
 	for k := range c.attesterDuties.duties {
@@ -1034,6 +1104,8 @@ func (c *DutiesCache) trimAfterAttesterDuties(epoch eth2p0.Epoch) bool {
 func (c *DutiesCache) trimAfterSyncDuties(epoch eth2p0.Epoch) bool {
 	c.syncDuties.Lock()
 	defer c.syncDuties.Unlock()
+
+	c.syncDuties.invalidations++
 
 	ok := false
 
